@@ -150,7 +150,7 @@ fn huff_profile_cases(r: &mut Rng, t: Tier, fam: &str, ops: &[&str], extra: &[&s
             3 => *r.pick(&[3usize, 5, 6, 8, 9, 11]),
             4 => r.range(14, 40) as usize,
             5 => r.range(2, 12) as usize,
-            _ => r.range(40, 120) as usize,
+            _ => r.range(40, 250) as usize,
         };
         // frequencies: fibonacci-like (deep), geometric, uniform, one dominant, caterpillar
         let mut freqs: Vec<usize> = vec![];
